@@ -430,6 +430,59 @@ theorem C16_location_stable_nonvacuous :
                    "a.aux: ERROR: in line 3: illegal, another \\bibstyle command".toList]] := by
   decide +kernel
 
+/-- `C16_location_stable` covers capture mode only (audit-d, C16 finding 1).  The same OUTSIDE any
+capture context, for both values of `strict`: the observations of a world history are, in order,
+the errors built from the states current at their reports — each one raised (strict; the history
+goes on, as in `run`) or printed with `error_code = 2` (non-strict) — and the observations of
+`h₁` are not changed by a continuation `h₂`.  Like `C16_location_stable` this is a statement about a
+pure model in which error values cannot alias the parse state; that the PYTHON objects do not is
+carried by `mkAuxError` (fix C20-2) and the `location_stable` clause of the correspondence. -/
+theorem C16_location_stable_all_modes {σ : Type} (w : σ) (s : State E) (h : s.captured = none)
+    (h₁ h₂ : List (WOp σ E)) :
+    (runWorld w s (h₁ ++ h₂)).2.2
+      = (builtErrors w h₁ ++ builtErrors (worldAfter w h₁) h₂).map
+          (fun e => if s.strict then Obs.raised e else Obs.printed e) ∧
+    (runWorld w s h₁).2.2
+      = (builtErrors w h₁).map (fun e => if s.strict then Obs.raised e else Obs.printed e) ∧
+    (runWorld w s (h₁ ++ h₂)).2.1.captured = none := by
+  have key : ∀ (ops : List (WOp σ E)) (w : σ) (s : State E), s.captured = none →
+      (runWorld w s ops).2.2
+        = (builtErrors w ops).map (fun e => if s.strict then Obs.raised e else Obs.printed e) ∧
+      (runWorld w s ops).2.1.captured = none := by
+    intro ops
+    induction ops with
+    | nil => intro w s h; simp [runWorld, builtErrors, h]
+    | cons op ops ih =>
+      intro w s h
+      cases op with
+      | mutate f => simpa [runWorld, builtErrors] using ih (f w) s h
+      | report mk =>
+        have hs : (report s (mk w)).1.captured = none ∧ (report s (mk w)).1.strict = s.strict := by
+          simp only [report, h]; split <;> simp [h]
+        have := ih w (report s (mk w)).1 hs.1
+        simp only [runWorld, builtErrors, List.map_cons, this.1, this.2, hs.2, and_true]
+        simp only [report, h]
+        split <;> simp_all
+  refine ⟨?_, (key h₁ w s h).1, (key (h₁ ++ h₂) w s h).2⟩
+  rw [(key (h₁ ++ h₂) w s h).1, builtErrors_append]
+
+/-- non-strict instance: the warning printed for line 3 is the error built on line 3, although the
+context object has been changed twice since -/
+theorem C16_location_stable_all_modes_nonvacuous :
+    let ctx0 : AuxContext := { filename := some "a.aux".toList, lineno := none, line := none }
+    let hist : List (WOp AuxContext Err) :=
+      [.mutate fun c => { c with lineno := some 3, line := some "\\bibstyle{x}".toList },
+       .report (mkAuxError "illegal, another \\bibstyle command".toList),
+       .mutate fun c => { c with lineno := some 4, line := some "\\relax".toList },
+       .mutate fun c => { c with lineno := none, line := none }]
+    (runWorld ctx0 { strict := false, errorCode := 0, captured := none } hist).2.2
+      = [.printed (.auxData "illegal, another \\bibstyle command".toList (some "a.aux".toList) (some 3)
+          (some "\\bibstyle{x}".toList))] ∧
+    (runWorld ctx0 { strict := true, errorCode := 0, captured := none } hist).2.2
+      = [.raised (.auxData "illegal, another \\bibstyle command".toList (some "a.aux".toList) (some 3)
+          (some "\\bibstyle{x}".toList))] := by
+  decide +kernel
+
 /-- rendering reads the error value only: two errors built from the same parse state are
 rendered alike, whatever the parser does later (there is no other input) -/
 theorem C16_location_snapshot (msg : Str) (ctx : AuxContext) (d : Str) (p : ScanState) :
